@@ -26,7 +26,7 @@ import (
 // parseAddress parses an encoded address into a 32 length byte array.
 // Currently supported encodings: base58, hex.
 func parseAddress(address string) ([]byte, error) {
-	if address[:2] == "0x" {
+	if len(address) >= 2 && address[:2] == "0x" {
 		bz := common.FromHex(address)
 		return leftPadBytes(bz)
 	}
